@@ -98,16 +98,20 @@ CHECKS['C14'] = {'note': 'Proved for all reachable states of a single-writer sys
          'rotation, random) and comparing outcomes; model-independent oracles: recover(), deadlock watchdog, ErrClosed after Close, rotation goroutine exit, '
          'handle accounting, acknowledged entries after two reopen cycles.'}
 
-CHECKS['C06'] = {'note': 'Partial proof: see coq/Props/C06.v header (linearizability itself is not proved).',
+CHECKS['C06'] = {'note': 'Proved for all schedules of a single-writer system (see coq/Props/C06.v header); base-index resets are implementation-only cases.',
  'ref': 'DESIGN.md 5 C06, 10 conc',
- 'technique': 'Rocq proof (schedule-quantified invariants) + forced-schedule correspondence + history checker + race detector',
+ 'technique': 'Rocq proof (schedule-quantified invariants, per-read linearization) + forced-schedule correspondence + history checker + race detector',
  'text': 'Kernel-checked for all schedules of the same L3 model (writer: append with offsets publish / write / fsync / commitIdx store, rotation, head and '
-         'tail truncation with re-append; any number of readers): an entry becomes visible only after its batch is synced and readers read below the synced '
-         'prefix (C06_visible_only_durable); model-level absence of read/write conflicts on file contents (C06_no_conflict_partial, partial by nature); with '
-         'a single writer no read ever goes through a closed or deleted file (C06_stable_entry_intact, from the handle-ownership invariant of C14). '
-         'Linearizability is NOT proved: forced schedules around the protocol windows (including entries larger than 64 KiB and batches larger than 1 MiB '
-         'observed mid-write) are compared with the extracted model, and every read of every forced and free-running (8 readers, 1 writer) history is checked '
-         "read-by-read against the writer's version log; the stress also runs under the race detector in the thorough tier."}
+         'tail truncation with re-append; any number of readers, Close callers): every completed FirstIndex/LastIndex/GetLog returns what the abstract log '
+         '(the current version) gives in some state between its invocation and its return, or ErrClosed once a concurrent Close has set the closed flag '
+         '(C06_reads_linearizable); no read ever goes through a closed or deleted file (C06_stable_entry_intact); an entry becomes visible only after its '
+         'batch is synced and readers read below the synced prefix (C06_visible_only_durable); model-level absence of read/write conflicts on file contents '
+         '(C06_no_conflict_partial, partial by nature: no Go memory model in Rocq). Proof: structural invariant of the version sequence, view stability '
+         '(the view through a held version changes only at the commitIdx store of a tail shared with the current version and then equals the current '
+         'view), append-only file contents, justification carried by every in-flight read. The model is tied to the code by forced schedules around the '
+         'protocol windows (including entries larger than 64 KiB and batches larger than 1 MiB observed mid-write) compared with the extracted model; every '
+         "read of every forced and free-running (8 readers, 1 writer) history of the implementation is checked read-by-read against the writer's version "
+         'log; the stress also runs under the race detector in the thorough tier.'}
 
 _pending = "check not built yet in this round (machinery under construction; see DESIGN.md section 10)"
 NOT_APPLICABLE = {("C%02d" % i): _pending for i in range(1, 21) if ("C%02d" % i) not in CHECKS}
